@@ -417,7 +417,10 @@ def runFrontEnd (r : Report) (sec : Nat) (l : Line) (mode : String) (conf yaml :
   | none => r.mismatch sec l.idx "bad-op" (joinSp l.op)
   | some op0 =>
     -- core/conf: the JSON unmarshaler with WithCanonicalKeyFunc(strings.ToLower); the handed-on document has lowered keys
-    let op : Op := if conf then { op0 with cfg := { lower := true } } else op0
+    -- uy / ut: `fa=1` selects the Reader form of the front end, not WithFromArray
+    let reader := !conf && op0.cfg.fromArray
+    let op : Op := if conf then { op0 with cfg := { lower := true } } else { op0 with cfg := { op0.cfg with fromArray := false } }
+    let mode := if reader then mode ++ "(Reader)" else mode
     let keyEq : Str → Str → Bool := if conf then (fun a b => lower a == lower b) else (· == ·)
     match l.obs with
     | "PANIC" :: _ => (r.violation sec l.idx s!"panic op=[{joinSp l.op}] impl=[{joinSp l.obs}]")
@@ -670,7 +673,9 @@ def runMLine (r : Report) (sec : Nat) (l : Line) : Report :=
     let sensitive := requiredDiffersTy op.ty other
     let verdictOf (obs : List String) : String := obs.headD ""
     let modelVerdict := match unmarshal op.cfg op.ty op.input with | .ok _ => "ok" | .error .outside => "outside" | .error _ => "err"
-    if sensitive && modelVerdict ≠ "outside" && verdictOf l.obs ≠ "PANIC" && verdictOf l.obs ≠ modelVerdict then
+    let modelClass := match unmarshal op.cfg op.ty op.input with | .error e => e.name | .ok _ => ""
+    let classDiffers := verdictOf l.obs = "err" && modelVerdict = "err" && l.obs.drop 1 ≠ [modelClass]
+    if sensitive && modelVerdict ≠ "outside" && verdictOf l.obs ≠ "PANIC" && (verdictOf l.obs ≠ modelVerdict || classDiffers) then
       ({ r with ops := r.ops + 1 }.addCover mode).addCover "known-defect-structRequiredCache-cross-key(tolerated)"
     else
       let r := if sensitive then r.addCover "two-keys-required-differs" else r
@@ -791,7 +796,7 @@ def runSection (r : Report) (s : Section) : Report :=
     else if l.op.head? = some "c" then
       let fmt := kvStr (l.op.take 4) "fmt"
       let via := kvStr (l.op.take 4) "via"
-      runFrontEnd r s.idx l s!"mode-conf({if via = "file" then "Load" else "LoadFrom"}{fmt})" true (fmt = "yaml")
+      runFrontEnd r s.idx l s!"mode-conf({if via = "file" then "Load:" else if via = "cfgfile" then "LoadConfig:" else if via = "alias" then "LoadConfigFrom…Bytes:" else "LoadFrom…Bytes:"}{fmt})" true (fmt = "yaml")
     else if l.op.head? = some "v" then runVLine r s.idx l
     else if l.op.head? = some "um" then runMLine r s.idx l
     else if l.op.head? = some "u" then runLine r s.idx l
